@@ -191,6 +191,13 @@ func Generate(rng *rand.Rand, i int, thorough bool) *p2prig.Scenario {
 		}
 		s.Announce = append(s.Announce, a)
 	}
+	// a peer on a losing branch announces its own tip too (the service fetches that branch: new headers, all of them stale)
+	for j := 1; j < nPeers && j < len(s.Nodes); j++ {
+		if s.Nodes[j].Kind == "forker" && s.Engine == "legacy" && rng.Intn(2) == 0 {
+			s.Announce = append(s.Announce, p2prig.AnnounceSpec{Blocks: 0, Mode: "inv", Nodes: []int{j}}, p2prig.AnnounceSpec{Blocks: 1, Mode: "conformant"})
+			break
+		}
+	}
 	// faults: the honest node (possibly the sync peer) drops the connection at message i
 	if s.Engine == "legacy" && rng.Intn(4) == 0 { // the experimental Peer has no re-dial logic of its own (single-outbound-peer design)
 		s.Nodes[0].DisconnectAtMsg = 3 + rng.Intn(6)
